@@ -613,6 +613,28 @@ func propC06Latest(c *Ctx, lt *ssa.Function, fStart *types.Var) {
 				default:
 					if cl, k := resultOf(lf.Val); cl != nil && k == 0 && cl.Call.IsInvoke() && cl.Call.Method.Name() == "Latest" {
 						kinds["head"] = true
+						// the head is the origin only when no start is configured (found by a seeded change that
+						// fell back to the head whenever the configured start lay ahead of it)
+						_, z1 := cmpEdges(g, func(bb *ssa.BinOp) bool {
+							n, ok := constInt(bb.Y)
+							return (bb.Op == token.GTR || bb.Op == token.NEQ) && ok && n == 0 && (isStopLoad(bb.X, fStart) || isStartCopy(bb.X, fStart))
+						})
+						z2, _ := cmpEdges(g, func(bb *ssa.BinOp) bool {
+							n, ok := constInt(bb.Y)
+							return bb.Op == token.EQL && ok && n == 0 && (isStopLoad(bb.X, fStart) || isStartCopy(bb.X, fStart))
+						})
+						startZero := append(z1, z2...)
+						guarded := len(startZero) > 0 && guardedByEdges(g, b, startZero)
+						if lf.Phi != nil && lf.Pred != nil {
+							guarded = guarded || (len(startZero) > 0 && edgeGuarded(g, lf.Pred, lf.Phi.Block(), startZero))
+						}
+						if !guarded {
+							// the test may sit in the caller of this function (latest: `switch n, ok := t.origin(); { case ok: … default: head }`)
+							guarded = headArmBehindNoStart(lreg, b, fStart)
+						}
+						if !guarded {
+							ok, detail = false, "the source's head becomes the origin although a start is configured (start > 0)"
+						}
 					} else {
 						ok, detail = false, "position is neither start-1 nor head-1"
 					}
@@ -668,4 +690,79 @@ func propC06Latest(c *Ctx, lt *ssa.Function, fStart *types.Var) {
 	}
 	_ = w
 	c.Check("R6.4", "latest/arms-selected-by-query-outcome", lt.Pos(), okGuard, "the scanned row is returned when the query succeeded; start/head arms only under pgx.ErrNoRows")
+}
+
+// isStartCopy: v is a phi/local that was initialised from the configured start (`first := t.start`)
+func isStartCopy(v ssa.Value, fStart *types.Var) bool {
+	ph, ok := stripNum(v).(*ssa.Phi)
+	if !ok {
+		return false
+	}
+	for _, lf := range phiLeaves(ph) {
+		if isStopLoad(lf.Val, fStart) {
+			return true
+		}
+	}
+	return false
+}
+
+// headArmBehindNoStart: the instruction is reached only when the configured start is absent, the
+// test being made by a boolean result of a helper (`n, ok := t.origin()`: ok is false only when start == 0).
+func headArmBehindNoStart(reg *Region, at ssa.Instruction, fStart *types.Var) bool {
+	fn := at.Parent()
+	for _, ci := range callsIn(fn) {
+		call, ok := ci.(*ssa.Call)
+		if !ok {
+			continue
+		}
+		h := regionCallee(call)
+		if h == nil || reg.site[h] != ssa.CallInstruction(call) {
+			continue
+		}
+		res := h.Signature.Results()
+		for j := 0; j < res.Len(); j++ {
+			if !isBoolType(res.At(j).Type()) {
+				continue
+			}
+			// in h: the boolean is false only behind start == 0
+			_, z1 := cmpEdges(h, func(bb *ssa.BinOp) bool {
+				n, ok := constInt(bb.Y)
+				return (bb.Op == token.GTR || bb.Op == token.NEQ) && ok && n == 0 && isStopLoad(bb.X, fStart)
+			})
+			z2, _ := cmpEdges(h, func(bb *ssa.BinOp) bool {
+				n, ok := constInt(bb.Y)
+				return bb.Op == token.EQL && ok && n == 0 && isStopLoad(bb.X, fStart)
+			})
+			zero := append(z1, z2...)
+			if len(zero) == 0 {
+				continue
+			}
+			falseOnlyBehindZero := true
+			for _, r := range returnsOf(h) {
+				vals := returnValues(r)
+				k, isC := vals[j].(*ssa.Const)
+				if !isC || k.Value == nil {
+					falseOnlyBehindZero = false
+					continue
+				}
+				if k.Value.String() == "false" && !guardedByEdges(h, r, zero) {
+					falseOnlyBehindZero = false
+				}
+			}
+			if !falseOnlyBehindZero {
+				continue
+			}
+			bv := ssa.Value(call)
+			if res.Len() > 1 {
+				bv = extractOf(call, j)
+			}
+			if bv == nil {
+				continue
+			}
+			if _, f := boolEdges(bv); len(f) > 0 && guardedByEdges(fn, at, f) {
+				return true
+			}
+		}
+	}
+	return false
 }
